@@ -1091,14 +1091,18 @@ fn body_wasm_importers(ch: &Ch) -> Run {
   // where the second statement lives: the same module (under another spelling
   // of the specifier) after or before the first, or a module imported after or before it
   let place = ch.shape("second_statement_in", 4);
+  // the statements name the module itself, or a specifier the loader redirects to it
+  let redirected = ch.flag("the_statements_name_a_specifier_that_redirects_to_the_module");
+  let (rel, abs) = if redirected { ("./r.wasm", "https://x/r.wasm") } else { ("./m.wasm", "https://x/m.wasm") };
   let build = |with1: bool, with2: bool| -> Option<(String, bool, BTreeSet<String>)> {
     let sched = Sched::new(SchedMode::Immediate);
     let loader = ScriptedLoader::new(sched);
     loader.add("https://x/m.wasm", Entry::bytes(&wasm_binary(&[("./a.ts", "f0", "function")])));
+    loader.add("https://x/r.wasm", Entry::Redirect(url("https://x/m.wasm")));
     loader.add_text("https://x/a.ts", "export function f0(): void {}\n");
-    let st1 = if with1 { render(s1, "./m.wasm", "w1") } else { String::new() };
-    let st2_here = if with2 { render(s2, "https://x/m.wasm", "w2") } else { String::new() };
-    let st2_there = if with2 { render(s2, "./m.wasm", "w2") } else { String::new() };
+    let st1 = if with1 { render(s1, rel, "w1") } else { String::new() };
+    let st2_here = if with2 { render(s2, abs, "w2") } else { String::new() };
+    let st2_there = if with2 { render(s2, rel, "w2") } else { String::new() };
     let main = match place {
       0 => format!("{st1}{st2_here}"),
       1 => format!("{st2_here}{st1}"),
@@ -1109,7 +1113,7 @@ fn body_wasm_importers(ch: &Ch) -> Run {
     loader.add_text("https://x/side.ts", &st2_there);
     let mut g = ModuleGraph::new(kind);
     build_graph(&mut g, vec![url("https://x/main.ts")], &loader, BuildCfg { is_dynamic, ..Default::default() }, ch).ok()?;
-    let entry = match g.try_get(&url("https://x/m.wasm")) {
+    let entry = match g.try_get(&url(abs)) {
       Ok(Some(m @ deno_graph::Module::Wasm(_))) => format!("3:wasm-module deps={:?}", m.dependencies().keys().collect::<Vec<_>>()),
       Ok(Some(deno_graph::Module::External(_))) => "2:asset".to_string(),
       Ok(Some(m)) => format!("2:{:?}", m.media_type()),
@@ -1126,7 +1130,7 @@ fn body_wasm_importers(ch: &Ch) -> Run {
   };
   run.evals = 3;
   let join = if only1.0 >= only2.0 { &only1 } else { &only2 };
-  let case = json!({"graph_kind": format!("{kind:?}"), "root_is_dynamic": is_dynamic, "first_statement": STMTS[s1], "second_statement": STMTS[s2],
+  let case = json!({"graph_kind": format!("{kind:?}"), "root_is_dynamic": is_dynamic, "first_statement": STMTS[s1], "second_statement": STMTS[s2], "statements_name": rel, "r.wasm": "redirects to m.wasm",
     "second_statement_in": (["main.ts after the first (absolute spelling)", "main.ts before the first (absolute spelling)", "side.ts, imported after the first", "side.ts, imported before the first"][place]),
     "m.wasm with both": both.0, "with the first only": only1.0, "with the second only": only2.0});
   if both.0 != join.0 || both.1 != (only1.1 || only2.1) {
@@ -1146,11 +1150,326 @@ fn body_wasm_importers(ch: &Ch) -> Run {
       case.clone(),
     );
   }
-  run.state_key = hash_of(&(format!("{kind:?}"), is_dynamic, s1, s2, place));
+  run.state_key = hash_of(&(format!("{kind:?}"), is_dynamic, s1, s2, place, redirected));
   run.nontrivial = s1 != s2;
   run.outcome_key = hash_of(&(both.0.clone(), both.1));
   if ch.describe() {
     run.sample = Some(case);
+  }
+  run
+}
+
+
+// ---------------------------------------------------------------------------
+// import attribute types x the options that enable them
+
+/// A resolver whose `resolve_attribute_type_import` claims the config
+/// attribute types and sends them to a wrapper module (what the hook's
+/// documentation describes); everything else resolves by default.
+#[derive(Debug)]
+struct ClaimingResolver;
+impl deno_graph::source::Resolver for ClaimingResolver {
+  fn resolve_attribute_type_import(
+    &self,
+    _specifier_text: &str,
+    _referrer_range: &deno_graph::Range,
+    _kind: deno_graph::source::ResolutionKind,
+    attribute_type: &str,
+  ) -> Option<Result<ModuleSpecifier, deno_graph::source::ResolveError>> {
+    matches!(attribute_type, "yaml" | "toml" | "json5" | "jsonc").then(|| Ok(url("https://x/wrapper.ts")))
+  }
+}
+
+#[derive(Clone, Debug, PartialEq, Eq, Hash)]
+struct AttrObs {
+  /// root.ts's recorded dependency for the statement: (attribute, code target, type target, is_dynamic)
+  dep: Option<(Option<String>, Option<String>, Option<String>, bool)>,
+  /// entry class at the requested specifier (after recorded redirects)
+  target: String,
+  redirect_recorded: bool,
+  leaf: bool,
+  wrapper: String,
+  /// loader calls that name the requested specifier or the redirect's end
+  target_calls: Vec<String>,
+  others: BTreeSet<String>,
+}
+
+const AT_ATTRS: [Option<&str>; 8] = [None, Some("json"), Some("text"), Some("bytes"), Some("css"), Some("yaml"), Some("jsonc"), Some("foo")];
+const AT_KINDS: [&str; 9] = ["t.ts", "t.js", "t.json", "t.txt", "t.css", "t.yaml", "gone.ts", "r.ts->t.ts", "r.ts->t.json"];
+const AT_FORMS: [&str; 5] = ["static", "dynamic", "export-star", "import-type", "side-effect"];
+
+fn at_relevant_flag(attr: Option<&str>) -> Option<usize> {
+  match attr {
+    Some("text") => Some(0),
+    Some("bytes") => Some(1),
+    Some("css") => Some(2),
+    Some("yaml" | "jsonc") => Some(3),
+    _ => None,
+  }
+}
+
+fn entry_class(g: &ModuleGraph, s: &str) -> String {
+  match g.try_get(&url(s)) {
+    Ok(Some(m)) => crate::props::c17::slot_class(Ok(m)),
+    Err(e) => crate::props::c17::slot_class(Err(e)),
+    Ok(None) => "absent".into(),
+  }
+}
+
+/// One importing statement with attribute type `attr` for a target of kind
+/// `tk`, every combination of the four enabling options: the reference says
+/// what the statement declares and what the build must hold, and options that
+/// have nothing to do with the attribute type must change nothing.
+fn body_attribute_types(ch: &Ch) -> Run {
+  let mut run = Run::default();
+  let kind = *ch.pick("graph_kind", &[GraphKind::All, GraphKind::CodeOnly, GraphKind::TypesOnly]);
+  let attr = *ch.pick("attribute_type", &AT_ATTRS);
+  let form = *ch.pick("import_form", &AT_FORMS);
+  let tk = *ch.pick("target", &AT_KINDS);
+  let hook = ch.flag("resolver_claims_config_attribute_types");
+  let root_dynamic = ch.flag("root_is_dynamic");
+  let (requested, end) = match tk {
+    "r.ts->t.ts" => ("https://x/r.ts", "https://x/t.ts"),
+    "r.ts->t.json" => ("https://x/r.ts", "https://x/t.json"),
+    "gone.ts" => ("https://x/gone.ts", "https://x/gone.ts"),
+    "t.ts" => ("https://x/t.ts", "https://x/t.ts"),
+    "t.js" => ("https://x/t.js", "https://x/t.js"),
+    "t.json" => ("https://x/t.json", "https://x/t.json"),
+    "t.txt" => ("https://x/t.txt", "https://x/t.txt"),
+    "t.css" => ("https://x/t.css", "https://x/t.css"),
+    _ => ("https://x/t.yaml", "https://x/t.yaml"),
+  };
+  let text = format!("./{}", &requested["https://x/".len()..]);
+  let with = match attr {
+    Some(a) => format!(" with {{ type: \"{a}\" }}"),
+    None => String::new(),
+  };
+  let dyn_with = match attr {
+    Some(a) => format!(", {{ with: {{ type: \"{a}\" }} }}"),
+    None => String::new(),
+  };
+  let stmt = match form {
+    "static" => format!("import v from \"{text}\"{with};\nexport {{ v }};\n"),
+    "dynamic" => format!("export const v = await import(\"{text}\"{dyn_with});\n"),
+    "export-star" => format!("export * from \"{text}\"{with};\n"),
+    "import-type" => format!("import type {{ T }} from \"{text}\"{with};\nexport type U = T;\n"),
+    _ => format!("import \"{text}\"{with};\n"),
+  };
+  let build = |flags: [bool; 4]| -> Option<AttrObs> {
+    let sched = Sched::new(SchedMode::Immediate);
+    let loader = ScriptedLoader::new(sched);
+    loader.add_text("https://x/root.ts", &stmt);
+    loader.add_text("https://x/t.ts", "import \"./leaf.ts\";\nexport default 1;\nexport type T = number;\n");
+    loader.add_text("https://x/t.js", "export default 1;\n");
+    loader.add_text("https://x/t.json", "{\"k\": 1}");
+    loader.add_text("https://x/t.txt", "plain text");
+    loader.add_text("https://x/t.css", "a { color: red }");
+    loader.add_text("https://x/t.yaml", "k: 1\n");
+    loader.add_text("https://x/leaf.ts", "export const leaf = 1;\n");
+    loader.add_text("https://x/wrapper.ts", "export default { k: 1 };\nexport type T = number;\n");
+    if requested != end {
+      loader.add(requested, Entry::Redirect(url(end)));
+    }
+    let resolver = ClaimingResolver;
+    let mut g = ModuleGraph::new(kind);
+    build_graph(
+      &mut g,
+      vec![url("https://x/root.ts")],
+      &loader,
+      BuildCfg {
+        is_dynamic: root_dynamic,
+        unstable_text: flags[0],
+        unstable_bytes: flags[1],
+        unstable_css: flags[2],
+        unstable_config: flags[3],
+        resolver: if hook { Some(&resolver) } else { None },
+        ..Default::default()
+      },
+      ch,
+    )
+    .ok()?;
+    let dep = match g.get(&url("https://x/root.ts")) {
+      Some(deno_graph::Module::Js(js)) => js.dependencies.get(&text).map(|d| {
+        (
+          d.maybe_attribute_type.clone(),
+          d.maybe_code.maybe_specifier().map(|s| s.to_string()).or(d.maybe_code.err().map(|_| "<error>".to_string())),
+          d.maybe_type.maybe_specifier().map(|s| s.to_string()).or(d.maybe_type.err().map(|_| "<error>".to_string())),
+          d.is_dynamic,
+        )
+      }),
+      _ => None,
+    };
+    let target_calls: Vec<String> = loader
+      .log
+      .borrow()
+      .iter()
+      .filter(|c| c.specifier.as_str() == requested || c.specifier.as_str() == end)
+      .map(|c| format!("{} {}", c.kind, &c.specifier.as_str()["https://x/".len()..]))
+      .collect();
+    let others: BTreeSet<String> = g
+      .specifiers()
+      .map(|(s, _)| s.to_string())
+      .filter(|s| !matches!(s.as_str(), "https://x/root.ts" | "https://x/leaf.ts" | "https://x/wrapper.ts") && s != requested && s != end)
+      .collect();
+    Some(AttrObs {
+      dep,
+      target: entry_class(&g, requested),
+      redirect_recorded: g.redirects.get(&url(requested)).map(|u| u.as_str()) == Some(end) && requested != end,
+      leaf: g.contains(&url("https://x/leaf.ts")),
+      wrapper: entry_class(&g, "https://x/wrapper.ts"),
+      target_calls,
+      others,
+    })
+  };
+  let describe = |flags: [bool; 4]| json!({"unstable_text_imports": flags[0], "unstable_bytes_imports": flags[1], "unstable_css_imports": flags[2], "unstable_config_imports": flags[3]});
+  let case = |flags: [bool; 4], extra: Value| json!({"graph_kind": format!("{kind:?}"), "root.ts": stmt, "target": tk, "attribute_type": attr, "resolver_with_attribute_hook": hook, "root_is_dynamic": root_dynamic, "options": describe(flags), "detail": extra});
+  let relevant = at_relevant_flag(attr);
+  let mut by_relevant: [Option<(AttrObs, [bool; 4])>; 2] = [None, None];
+  let mut outcomes = vec![];
+  for mask in 0..16u32 {
+    let flags = [mask & 1 != 0, mask & 2 != 0, mask & 4 != 0, mask & 8 != 0];
+    let Some(obs) = build(flags) else {
+      run.violate("build-did-not-finish", "deadlock", case(flags, json!({})));
+      return run;
+    };
+    run.evals += 1;
+    // ---- options that do not concern this attribute type change nothing
+    let on = relevant.map(|i| flags[i]).unwrap_or(false);
+    match &by_relevant[on as usize] {
+      None => by_relevant[on as usize] = Some((obs.clone(), flags)),
+      Some((first, first_flags)) => {
+        if *first != obs {
+          run.violate(
+            format!("unrelated-option-changes-the-result@{}", attr.unwrap_or("none")),
+            format!("with {} the build gives {:?}; with {} it gives {:?} - the two differ only in options that do not concern attribute type {:?}", describe(*first_flags), first, describe(flags), obs, attr),
+            case(flags, json!({})),
+          );
+        }
+        continue; // the reference below was evaluated on the first of the class
+      }
+    }
+    outcomes.push(hash_of(&obs));
+    // ---- the reference
+    let type_only = form == "import-type";
+    let recorded = !(type_only && kind == GraphKind::CodeOnly);
+    let claimed = hook && matches!(attr, Some("yaml" | "jsonc"));
+    let resolved = if claimed { "https://x/wrapper.ts" } else { requested };
+    let is_asset = matches!(attr, Some("text" | "bytes" | "css"));
+    let in_dynamic_branch = form == "dynamic" || root_dynamic;
+    let want_dep = recorded.then(|| {
+      let a = attr.map(|a| a.to_string());
+      if type_only {
+        (a, None, Some(resolved.to_string()), false)
+      } else {
+        (a, Some(resolved.to_string()), None, form == "dynamic")
+      }
+    });
+    if obs.dep != want_dep {
+      let field = match (&obs.dep, &want_dep) {
+        (Some(a), Some(b)) if a.0 != b.0 => "attribute",
+        (Some(a), Some(b)) if a.1 != b.1 => "code-target",
+        (Some(a), Some(b)) if a.2 != b.2 => "type-target",
+        (Some(_), Some(_)) => "is_dynamic",
+        _ => "presence",
+      };
+      run.violate(
+        format!("attribute-import-recorded-dependency-differs@{field}{}", if claimed { ":claimed-by-resolver" } else { "" }),
+        format!("root.ts records (attribute, code, type, is_dynamic) = {:?}; its source declares {:?}", obs.dep, want_dep),
+        case(flags, json!({})),
+      );
+    }
+    // what the entry of the loaded specifier must be
+    let loaded_class = |final_spec: &str, attr_at_load: Option<&str>| -> String {
+      if final_spec.ends_with("gone.ts") {
+        return "error:Missing".into();
+      }
+      if let Some(a) = attr_at_load
+        && a != "json"
+        && !(flags[3] && matches!(a, "yaml" | "jsonc"))
+      {
+        return "error:UnsupportedImportAttributeType".into();
+      }
+      if final_spec.ends_with(".json") {
+        return if in_dynamic_branch || attr_at_load == Some("json") { "json".into() } else { "error:UnsupportedMediaType".into() };
+      }
+      if attr_at_load == Some("json") {
+        return "error:InvalidTypeAssertion".into();
+      }
+      if final_spec.ends_with(".ts") {
+        return "js:TypeScript".into();
+      }
+      if final_spec.ends_with(".js") {
+        return "js:JavaScript".into();
+      }
+      "error:UnsupportedMediaType".into()
+    };
+    let (want_target, want_leaf, want_wrapper, want_calls, want_redirect): (String, bool, String, Vec<String>, bool) = if !recorded {
+      ("absent".into(), false, "absent".into(), vec![], false)
+    } else if claimed {
+      ("absent".into(), false, loaded_class("https://x/wrapper.ts", attr), vec![], false)
+    } else if is_asset && !flags[relevant.unwrap()] {
+      ("error:UnsupportedImportAttributeType".into(), false, "absent".into(), vec![], false)
+    } else if is_asset {
+      let c = if end.ends_with("gone.ts") { "error:Missing".to_string() } else { "external".to_string() };
+      let mut calls = vec![format!("ensure_cached {}", &requested["https://x/".len()..])];
+      if requested != end {
+        calls.push(format!("ensure_cached {}", &end["https://x/".len()..]));
+      }
+      (c, false, "absent".into(), calls, requested != end)
+    } else {
+      let c = loaded_class(end, attr);
+      let mut calls = vec![format!("load {}", &requested["https://x/".len()..])];
+      if requested != end {
+        calls.push(format!("load {}", &end["https://x/".len()..]));
+      }
+      let leaf = c == "js:TypeScript" && end.ends_with("t.ts");
+      (c, leaf, "absent".into(), calls, requested != end)
+    };
+    let got_target = if obs.target.starts_with("error:Missing") { "error:Missing".to_string() } else { obs.target.clone() };
+    if got_target != want_target {
+      run.violate(
+        format!("attribute-import-entry-differs@{}:{}->{}", attr.unwrap_or("none"), want_target, got_target),
+        format!("the entry for {requested} is {}; the attribute type, the options and the file say {want_target}", obs.target),
+        case(flags, json!({})),
+      );
+    }
+    if obs.leaf != want_leaf || obs.wrapper != want_wrapper || !obs.others.is_empty() {
+      run.violate(
+        format!("attribute-import-graph-is-not-the-closure@{}", attr.unwrap_or("none")),
+        format!("leaf.ts present: {} (expected {want_leaf}); wrapper.ts: {} (expected {want_wrapper}); other specifiers: {:?}", obs.leaf, obs.wrapper, obs.others),
+        case(flags, json!({})),
+      );
+    }
+    if obs.target_calls != want_calls {
+      run.violate(
+        format!("attribute-import-loader-calls-differ@{}", attr.unwrap_or("none")),
+        format!("loader calls for the target: {:?}; expected {:?}", obs.target_calls, want_calls),
+        case(flags, json!({})),
+      );
+    }
+    if obs.redirect_recorded != want_redirect {
+      run.violate(
+        format!("attribute-import-redirect-not-recorded@{}", attr.unwrap_or("none")),
+        format!("redirect {requested} -> {end} recorded: {}; expected {want_redirect}", obs.redirect_recorded),
+        case(flags, json!({})),
+      );
+    }
+    run.count(
+      match want_target.as_str() {
+        "external" => "cases_where_the_target_is_an_asset",
+        "absent" => "cases_where_the_target_is_not_loaded",
+        s if s.starts_with("error:UnsupportedImportAttributeType") => "cases_where_the_attribute_type_is_rejected",
+        s if s.starts_with("error") => "cases_where_the_target_is_another_error",
+        _ => "cases_where_the_target_is_a_module",
+      },
+      1,
+    );
+  }
+  run.state_key = hash_of(&(format!("{kind:?}"), attr, form, tk, hook, root_dynamic));
+  run.nontrivial = attr.is_some();
+  run.outcome_key = hash_of(&outcomes);
+  if ch.describe() {
+    run.sample = Some(case([false; 4], json!({"with_all_options_off": format!("{:?}", by_relevant[0].as_ref().map(|x| &x.0))})));
   }
   run
 }
@@ -1210,6 +1529,12 @@ pub fn prop(tier: Tier) -> Prop {
     body: Box::new(body_wasm_importers),
     modes: vec![Mode::Full],
     what: "two import statements for one WebAssembly module (each static / dynamic / static source-phase / dynamic source-phase; second one in the same module under another spelling or in a sibling module, before or after the first) x 3 graph kinds x is_dynamic: the module's entry and the graph equal the join / union of the single-statement builds",
+  });
+  parts.push(Part {
+    name: "attribute-types",
+    body: Box::new(body_attribute_types),
+    modes: vec![Mode::Full],
+    what: "one importing statement (static / dynamic / export * / import type / side effect) carrying attribute type none / json / text / bytes / css / yaml / jsonc / foo for a target that is TypeScript (with an import of its own) / JavaScript / JSON / text / CSS / YAML / missing / a redirect to TypeScript or JSON, x 3 graph kinds x dynamic root x a resolver whose attribute hook claims the config types, each under all 16 combinations of unstable_text / bytes / css / config imports: recorded dependency, entry of the target, loaded set, loader calls and recorded redirect vs a reference, and options unrelated to the attribute type must change nothing",
   });
   parts.push(Part {
     name: "wasm-imports",
